@@ -13,6 +13,7 @@
 import Sbepp.Lemmas.Walk
 import Sbepp.Lemmas.Encode
 import Sbepp.Gen.SizeFormula
+import Sbepp.Lemmas.SizeFormula
 
 namespace Sbepp.Properties.C05
 open Sbepp
@@ -49,6 +50,16 @@ theorem cursor_size_after_encode (bo : ByteOrder) (l : Level) (v : LVal) (pre mi
 theorem flat_level_size (bo : ByteOrder) (buf : List Nat) (bl : Nat) (lv : List Leaf) (pos wbl : Nat) :
     endL bo buf (.mk bl lv [] []) pos wbl = pos + wbl := by
   simp [endL, endGs, endDs]
+
+/-- **trait_size_eq**: the trait-level `message_traits<M>::size_bytes(counts…,
+    total_data_size)` — one `numInGroup` parameter per group of the tree in
+    pre-order holding the TOTAL number of entries of that group, plus the total
+    payload size — equals header + image length, for every group tree and every
+    value whose blocks have their compiled lengths. -/
+theorem trait_size_eq (bo : ByteOrder) (m : Schema.NMessage) (root : LVal) (h : Gen.ShapeL m.level root) :
+    Gen.messageSize m (Gen.countsGs m.level.gs root.groups) (Gen.totalData root)
+      = m.hdrSize + (flattenL bo m.level.erase root).length :=
+  Gen.messageSize_eq bo m root h
 
 /-! non-vacuity: the trait formula on a concrete layout and value -/
 open Sbepp.Schema Sbepp.Gen in
